@@ -38,6 +38,10 @@ pub struct ElfSpec {
     pub link_base: u64,
     /// the .text *section* starts this many bytes into the text segment (mid-page) ...
     pub text_sec_skip: u64,
+    /// the build-id note and the dynamic string table live in an extra loadable segment that a
+    /// post-link tool (patchelf and the like) appended: at the end of the file, but at a virtual
+    /// address far from its file offset
+    pub moved_tables: bool,
 }
 
 #[derive(Clone, Debug)]
@@ -64,6 +68,10 @@ pub struct ElfImage {
     pub scratch_off: u64,
     pub scratch_len: u64,
     pub entry_off: u64,
+    /// (file offset, virtual address relative to the load base, length) of the appended segment
+    pub moved: Option<(u64, u64, u64)>,
+    /// virtual address (relative to the load base) of the dynamic string table
+    pub dynstr_vaddr: u64,
     pub spec: ElfSpec,
 }
 
@@ -116,6 +124,18 @@ pub fn build(spec: &ElfSpec) -> ElfImage {
     let mapped = data_off + gap + 0x1000;
     let file_mapped = data_off + 0x1000;
     let total = if spec.sections && spec.sections_at_end { file_mapped + 0x1000 } else { file_mapped };
+    // appended segment: file offset at the (page-aligned) end of the file, virtual address three pages
+    // above everything else
+    let moved: Option<(u64, u64, u64)> = if spec.moved_tables { Some((total, mapped + 0x3000, 0x1000)) } else { None };
+    let (total, mapped) = match moved {
+        Some((mo, mv, ml)) => (mo + ml, mv + ml),
+        None => (total, mapped),
+    };
+    // where the note and the string table sit: (file offset, vaddr - file offset)
+    let (tab_off, tab_dv) = match moved {
+        Some((mo, mv, _)) => (mo, mv - mo),
+        None => (0, 0),
+    };
     let mut f = vec![0u8; total as usize];
 
     // text
@@ -126,7 +146,7 @@ pub fn build(spec: &ElfSpec) -> ElfImage {
     }
 
     // note at 0x200
-    let note_off = 0x200u64;
+    let note_off = tab_off + 0x200u64;
     let mut note_len = 0u64;
     if let Some(id) = &spec.build_id {
         let o = note_off as usize;
@@ -139,7 +159,7 @@ pub fn build(spec: &ElfSpec) -> ElfImage {
     }
 
     // dynstr at 0x300
-    let dynstr_off = 0x300u64;
+    let dynstr_off = tab_off + 0x300u64;
     let mut dynstr = vec![0u8];
     let mut soname_idx = 0u64;
     if let Some(s) = &spec.soname {
@@ -161,7 +181,7 @@ pub fn build(spec: &ElfSpec) -> ElfImage {
         dynv.push((DT_SONAME, soname_idx));
     }
     let strtab_idx = dynv.len();
-    dynv.push((DT_STRTAB, spec.link_base + dynstr_off));
+    dynv.push((DT_STRTAB, spec.link_base + dynstr_off + tab_dv));
     dynv.push((DT_STRSZ, dynstr_len));
     let mut debug_idx = None;
     if spec.dt_debug {
@@ -187,8 +207,11 @@ pub fn build(spec: &ElfSpec) -> ElfImage {
     ph.push((PT_LOAD, 4, 0, 0x1000, 0x1000, 0));
     ph.push((PT_LOAD, 5, text_off, text_len, 0x1000, 0));
     ph.push((PT_LOAD, 6, data_off, 0x1000, 0x1000, gap));
+    if let Some((mo, _mv, ml)) = moved {
+        ph.push((PT_LOAD, 4, mo, ml, 0x1000, tab_dv));
+    }
     if spec.build_id.is_some() && spec.note_in_phdr {
-        ph.push((PT_NOTE, 4, note_off, note_len, 4, 0));
+        ph.push((PT_NOTE, 4, note_off, note_len, 4, tab_dv));
     }
     ph.push((PT_DYNAMIC, 6, dyn_off, dyn_len, 8, gap));
     let phnum = ph.len() as u64;
@@ -226,7 +249,7 @@ pub fn build(spec: &ElfSpec) -> ElfImage {
         shdr2(&mut f, base + i * 64, n_text, 1, 2 | 4, lb + text_off + skip, text_off + skip, text_len - skip, 0, 16, 0);
         i += 1;
         if spec.build_id.is_some() {
-            shdr2(&mut f, base + i * 64, n_note, 7, 2, lb + note_off, note_off, note_len, 0, 4, 0);
+            shdr2(&mut f, base + i * 64, n_note, 7, 2, lb + note_off + tab_dv, note_off, note_len, 0, 4, 0);
             i += 1;
         }
         let shstr_idx = i;
@@ -235,7 +258,7 @@ pub fn build(spec: &ElfSpec) -> ElfImage {
         let dynstr_sec_idx = i + 1;
         shdr2(&mut f, base + i * 64, n_dynamic, 6, 3, lb + dyn_off + gap, dyn_off, dyn_len, dynstr_sec_idx as u32, 8, 16);
         i += 1;
-        shdr2(&mut f, base + i * 64, n_dynstr, 3, 2, lb + dynstr_off, dynstr_off, dynstr_len, 0, 1, 0);
+        shdr2(&mut f, base + i * 64, n_dynstr, 3, 2, lb + dynstr_off + tab_dv, dynstr_off, dynstr_len, 0, 1, 0);
         i += 1;
         shnum = i as u16;
         put16(&mut f, 62, shstr_idx as u16);
@@ -278,6 +301,8 @@ pub fn build(spec: &ElfSpec) -> ElfImage {
         scratch_off,
         scratch_len,
         entry_off,
+        moved,
+        dynstr_vaddr: dynstr_off + tab_dv,
         spec: spec.clone(),
     }
 }
